@@ -141,6 +141,22 @@ class Parser:
         while True:
             if self.accept("}"): break
             if self.accept(";"): continue
+            if self.peek() == "#" and self.kind() == "p":
+                # phase 4m (C17, conc mode): `#[cfg(feature = "verif")] <stmt>` = a statement of the verification build only (yield points,
+                # add-only hooks): the PRODUCTION configuration is translated, the statement is skipped.  Any other attribute is refused.
+                if [self.peek(k) for k in range(1, 9)] != ["[", "cfg", "(", "feature", "=", '"verif"', ")", "]"]: self.fail("attribute on a statement")
+                self.i += 9; d = 0
+                if self.peek() == "{":
+                    while True:
+                        t = self.next(); d += {"{": 1, "}": -1}.get(t, 0)
+                        if d == 0: break
+                        if self.kind() == "eof": self.fail("unterminated cfg block")
+                else:
+                    while not (d == 0 and self.peek() == ";"):
+                        if self.kind() == "eof" or (d == 0 and self.peek() == "}"): self.fail("cfg statement without `;`")
+                        t = self.next(); d += {"{": 1, "(": 1, "[": 1, "}": -1, ")": -1, "]": -1}.get(t, 0)
+                    self.next()
+                continue
             if tail is not None:
                 # the previous block-like expression was a statement after all
                 stmts.append(("expr", tail)); tail = None
@@ -645,15 +661,15 @@ def has_escape(x, in_loop=False):
     return any(has_escape(y, in_loop) for y in x if isinstance(y, (tuple, list)))
 
 
-def has_panic_or_loop(x):
+def has_panic_or_loop(x, with_for=False):
     """phase 4g (table option `panic_escape`): does a branch contain a `panic!` or a `loop` / `while`?  Such an `if` is lowered like one with a
     `return` inside: the continuation is duplicated into the branches (a panicking arm needs no merge value; a loop in an arm keeps the
     function's own continuation)"""
-    if isinstance(x, list): return any(has_panic_or_loop(y) for y in x)
+    if isinstance(x, list): return any(has_panic_or_loop(y, with_for) for y in x)
     if not isinstance(x, tuple) or not x: return False
-    if x[0] in ("panic", "loop", "while"): return True
+    if x[0] in ("panic", "loop", "while") or (with_for and x[0] == "for"): return True      # (`for`: table option `for_escape`, phase 4m)
     if x[0] in ("path", "num", "bool"): return False
-    return any(has_panic_or_loop(y) for y in x if isinstance(y, (tuple, list)))
+    return any(has_panic_or_loop(y, with_for) for y in x if isinstance(y, (tuple, list)))
 
 
 def lvalue_root(e):
@@ -2121,7 +2137,7 @@ class FnLower2(FnLower):
         after = self.live_rest(stmts, i + 1, tail, k)
         c = self.cond(e[1], env, ops)
         eb = e[3] if e[3] is not None else ([], None)
-        if has_escape([e[2][0], e[2][1], eb[0], eb[1]]) or (self.opts.get("panic_escape") and has_panic_or_loop([e[2][0], e[2][1], eb[0], eb[1]])):
+        if has_escape([e[2][0], e[2][1], eb[0], eb[1]]) or (self.opts.get("panic_escape") and has_panic_or_loop([e[2][0], e[2][1], eb[0], eb[1]], self.opts.get("for_escape"))):
             rest = K(lambda env2, _v, ops2: self.stmts(stmts, i + 1, tail, env2, ops2, k, nested), after, toplevel=k.toplevel)
             a = self.block_code(e[2], dict_copy(env), rest); b = self.block_code(eb, dict_copy(env), rest)
             return ("if", c, a, b)
@@ -2891,7 +2907,7 @@ class FnTranslate(FnLower2):
     def translate(self):
         if "skeleton" in self.opts:
             self.abs = {}
-            self.fn = Skeleton(self, self.fn, self.opts["skeleton"]).run()
+            self.fn = self.opts.get("skeleton_class", Skeleton)(self, self.fn, self.opts["skeleton"]).run()      # (`skeleton_class`: phase 4m, rs2lean_conc.py)
         if self.opts.get("iters"):
             self.fn = dict(self.fn); self.fn["body"] = desugar_iters(self.fn["body"], self.fail, [0])
         if self.opts.get("enum_iters"):                                     # phase 4k: `.iter().enumerate()` / `.chunks(k).enumerate()` chains (tools/rs2lean_rns4k.py)
@@ -3894,6 +3910,10 @@ TABLE_EVALCT += square_tables(EV, CSZ, PLEN, SC_OK, SC_OK_FIRST, _scale_ok)
 
 import rs2lean_ctx as _rs2lean_ctx          # round 7 (worker T): Gen/ContextFns.lean (tables in tools/rs2lean_ctx.py)
 FILES += [("ContextFns.lean", _rs2lean_ctx.SPEC)]
+# Phase 4m (worker X): C17, the phase structure of the lock-protected caches (tools/rs2lean_conc.py, "conc mode"; notes/work7-X.md)
+import rs2lean_conc
+FILES += rs2lean_conc.files(sys.modules[__name__])
+
 
 if __name__ == "__main__":
     res = gen_all(sys.argv[1])
